@@ -265,6 +265,9 @@ def one_scenario(ctx, S, nonmonotone, n_calls, corrs):
         hist_calls(env.data_proxy)
         if c_week is not None:
             histw_calls(env.data_proxy)
+        # a function scheduled for the before-trading slot is before-trading code: its windows end at the previous trading day too
+        import rqalpha.api as api_
+        api_.scheduler.run_daily(api_probe("scheduled_before_trading"), time_rule="before_trading")
 
     def api_probe(phase):
         def f(context, bar_dict=None):
@@ -286,7 +289,7 @@ def one_scenario(ctx, S, nonmonotone, n_calls, corrs):
                 rows = fmt_rows(arr, names)
                 impl = "%d %s" % (len(rows), " ".join(" ".join([str(r[0])] + [f2b(x) for x in r[1:]]) for r in rows)) if rows else "0"
                 td8, cd8 = B.d8(env.trading_dt.date()), B.d8(env.calendar_dt.date())
-                before_open = phase in ("before_trading", "open_auction")
+                before_open = phase in ("before_trading", "open_auction", "scheduled_before_trading")
                 api_log.append((st, n, skip, adj, before_open, td8, cd8, impl.strip(), rows, phase))
         return f
 
